@@ -15,10 +15,10 @@ def run(ctx, rep):
     rep.notes.append('C01 PARTIAL: decides row count, column set/order/completeness, the kind-correct transform pipeline '
                      '(normal draw -> norm.cdf -> marginal quantile, fit side cdf -> clip -> norm.ppf) and the dependence '
                      'source of the unconditional draw; the law of the sampled columns is not decided.')
-    d1_rows(ctx, rep)
-    d2_columns(ctx, rep)
-    d3_pipeline(ctx, rep)
-    d4_dependence(ctx, rep)
+    rep.guarded('D1.d1_rows', d1_rows, ctx, rep)
+    rep.guarded('D2.d2_columns', d2_columns, ctx, rep)
+    rep.guarded('D3.d3_pipeline', d3_pipeline, ctx, rep)
+    rep.guarded('D4.d4_dependence', d4_dependence, ctx, rep)
 
 
 def _output_stores(fn):
@@ -54,7 +54,7 @@ def d1_rows(ctx, rep):
             rep.bad('D1.rows', fn, st, f'operands of different lengths ({v[1]} vs {v[2]})')
         else:
             rep.undecided('D1.rows', fn, st, f'length not derivable ({v})')
-    rep.floor('D1.rows', 'column stores in sample()', len(stores), 2)
+    rep.floor('D1.rows', 'column stores in sample()', len(stores), 1)
 
 
 def d2_columns(ctx, rep):
